@@ -192,6 +192,92 @@ Theorem C07_attribute_updates :
 Proof. exact setters_spec. Qed.
 Print Assumptions C07_attribute_updates.
 
+(* 0-d mask (no mask given and a scalar amplitude, or mask=scalar) together with an array amplitude and/or array OPD:
+   one phasor covering the attribute array - amplitude * [mask] * exp(2 pi i opd / lambda) inside it, nothing outside;
+   the plane has shape (), so the wavefront keeps its own shape *)
+Theorem C07_scalar_mask_with_array_attributes :
+  forall (S : Scalar), is_ring S -> forall (P : plane S) (w : pwf S) (b : bool) (n m : Z) (px : option (Qc * Qc)),
+  smask_plane P b n m -> (forall f, In f (pw_data w) -> fwell f) -> mul_pixelscale (pl_pix P) (pw_pix w) = Ok px ->
+  exists w', plane_multiply P w = Ok w' /\
+    pw_lam w' = pw_lam w /\ pw_pix w' = px /\ pw_shape w' = pw_shape w /\
+    pw_focal w' = (match pl_focal P with Some f => f | None => focal_truthy (pw_focal w) end) /\
+    (forall f, In f (pw_data w') -> fsized f) /\
+    forall r c, embed_sum (pw_data w') r c = (ec_sum (pw_data w) r c * smask_transmission P b (pw_lam w) n m r c)%K.
+Proof. exact plane_multiply_scalar_mask. Qed.
+Print Assumptions C07_scalar_mask_with_array_attributes.
+
+(* Plane(amplitude=, amp=, opd=, mask=, ...): which calls are refused and with which exception, and what is stored *)
+Theorem C07_constructor_outcome :
+  forall (S : Scalar) (nz : S -> bool) amplitude alias opd mask pix foc tl,
+  match plane_init_kw nz amplitude alias opd mask pix foc tl with
+  | Ok P => (alias = None /\ pl_amp P = amplitude \/ exists a', alias = Some a' /\ pl_amp P = a') /\
+            mask <> M4 /\ pl_opd P = opd /\ pl_mask P = init_mask nz (pl_amp P) mask /\
+            plane_slice (pl_mask P) = Ok (pl_slices P) /\ pl_pix P = pix_broadcast pix /\ pl_tilt P = tl /\ pl_focal P = foc
+  | Err TypeError =>
+      alias <> None /\ (exists v, amplitude = AmpS v /\ nz (v - k1)%K = true) \/
+      alias <> None /\ (exists A, amplitude = AmpA A /\ nr A * nc A = 1 /\ nz (get A 0 0 - k1)%K = true)
+  | Err ValueError => (alias <> None /\ exists A, amplitude = AmpA A /\ nr A * nc A <> 1) \/ mask = M4
+  | Err IndexError => mask <> M4 /\ exists a, plane_slice (init_mask nz a mask) = Err IndexError
+  | Err _ => False
+  end.
+Proof. exact plane_init_kw_outcome. Qed.
+Print Assumptions C07_constructor_outcome.
+
+(* a mask (or segment) without a set sample has no bounding slice: IndexError *)
+Theorem C07_empty_mask_refused :
+  forall (m : garr bool), 0 < pnr m ->
+  (forall i j, 0 <= i < pnr m -> 0 <= j < pnc m -> pget m i j = false) -> boundary_slice m = Err IndexError.
+Proof. exact boundary_slice_empty. Qed.
+Print Assumptions C07_empty_mask_refused.
+
+(* Wavefront(wavelength, pixelscale, focal_length, tilt=...): a tilt argument must have exactly two entries; it is
+   stored as one Tilt with the axes exchanged; the wavefront starts as the 0-d plane wave of shape () *)
+Theorem C07_wavefront_tilt_argument :
+  forall (S : Scalar) lam pix foc (t : option (list Qc)),
+  match pwf_init_kw (S := S) lam pix foc t with
+  | Ok w => pw_lam w = lam /\ pw_pix w = pix_broadcast pix /\ pw_shape w = None /\
+            (t = None /\ pw_data w = [mkField (D0 k1) 0 0 []] \/
+             exists rx ry, t = Some [rx; ry] /\ pw_data w = [mkField (D0 k1) 0 0 [TiltAng ry rx]])
+  | Err e => e = ValueError /\ exists l, t = Some l /\ length l <> 2%nat
+  end.
+Proof. exact pwf_init_kw_outcome. Qed.
+Print Assumptions C07_wavefront_tilt_argument.
+
+(* Plane.global_mask of pairwise disjoint segment masks: 1 on their union, 0 elsewhere *)
+Theorem C07_global_mask_of_disjoint_segments :
+  forall (n m : Z) (l : list (garr bool)) (i j : Z), disjoint_masks l ->
+  (forall a, In a l -> inr (pnr a) i && inr (pnc a) j = true) ->
+  global_mask (PM3 n m l) i j = if existsb (fun a => pget a i j) l then 1 else 0.
+Proof. exact global_mask_disjoint. Qed.
+Print Assumptions C07_global_mask_of_disjoint_segments.
+
+(* Plane.shape and Plane.size read off the stored mask: () and 1 for a 0-d mask, the array's shape and 1 for a 2-d
+   mask, the trailing two dimensions and the number of layers for a cube of segment masks *)
+Theorem C07_shape_and_size :
+  forall (S : Scalar) (nz : S -> bool) (amp : aattr S),
+  (forall a, plane_dims (init_mask nz amp (M2 a)) = Some (nr a, nc a) /\ psize (init_mask nz amp (M2 a)) = 1%nat) /\
+  (forall n m l, plane_dims (init_mask nz amp (M3 n m l)) = Some (n, m) /\ psize (init_mask nz amp (M3 n m l)) = length l) /\
+  (forall v, plane_dims (init_mask nz amp (MS v)) = None /\ psize (init_mask nz amp (MS v)) = 1%nat) /\
+  (match amp with
+   | AmpA A => plane_dims (init_mask nz amp MNone) = Some (nr A, nc A)
+   | AmpS v => plane_dims (init_mask nz amp MNone) = None end) /\ psize (init_mask nz amp MNone) = 1%nat.
+Proof. exact shape_size_spec. Qed.
+Print Assumptions C07_shape_and_size.
+
+(* non-vacuity of the last group: the amp= alias, both keywords, a rank-4 mask, an empty mask, a 3-entry tilt, and a
+   plane with OPD array but no mask multiplying a 2x2 wavefront *)
+Example C07_constructor_nonvacuous :
+  let nzz := fun x : ZS => negb (x =? 0) in
+  (match plane_init_kw (S := ZS) nzz (@AmpS ZS 1) (Some (@AmpS ZS 5)) (OpdS 0%Qc) MNone PixNone None [] with
+   | Ok P => pl_amp P = @AmpS ZS 5 | Err _ => False end) /\
+  plane_init_kw (S := ZS) nzz (@AmpS ZS 2) (Some (@AmpS ZS 5)) (OpdS 0%Qc) MNone PixNone None [] = Err TypeError /\
+  plane_init_kw (S := ZS) nzz (@AmpA ZS (@mkArr ZS 2 2 (fun _ _ => 1))) (Some (@AmpS ZS 5)) (OpdS 0%Qc) MNone PixNone None [] = Err ValueError /\
+  plane_init_kw (S := ZS) nzz (@AmpS ZS 1) None (OpdS 0%Qc) M4 PixNone None [] = Err ValueError /\
+  plane_init_kw (S := ZS) nzz (@AmpS ZS 1) None (OpdS 0%Qc) (M2 (@mkArr ZS 2 2 (fun _ _ => 0))) PixNone None [] = Err IndexError /\
+  (match pwf_init_kw (S := ZS) 1%Qc PixNone None (Some [1%Qc; 0%Qc; 1%Qc]) with Err e => e = ValueError | Ok _ => False end) /\
+  (match pwf_init_kw (S := ZS) 1%Qc PixNone None (Some [1%Qc; 0%Qc]) with Ok w => length (pw_data w) = 1%nat | Err _ => False end).
+Proof. vm_compute. repeat split; reflexivity. Qed.
+
 (* non-vacuity: a segmented 3x4 pupil over Z (two segments with overlapping bounding boxes, array
    amplitude, scalar opd) meets [plane_ok]; multiplying the fresh wavefront by it succeeds, takes the
    pupil's focal length, and intensity = field^2 at a sample of the second segment *)
